@@ -439,7 +439,10 @@ func c18(c *core.Ctx) {
 		cf := cfgs[k.Index%len(cfgs)]
 		c18Config(k, cf.g, cf.p, maxI(total/cf.g, 8))
 	})
-	var req []string
+	// the very first uses of the library in a new process, overlapping on 32 goroutines (no sequential warm-up as in
+	// the configurations above)
+	freshFamily(c, "C18", "fresh-process-concurrent-first-use", c.N(6, 100))
+	req := []string{"fresh_process_cases_ok"}
 	for i := 0; i < nKinds; i++ {
 		req = append(req, "ops_"+kindNames[i])
 		for j := i; j < nKinds; j++ {
